@@ -28,7 +28,7 @@ def bounds(tier):
 
 def plan(tier):
     b = bounds(tier)
-    units = []
+    units = [('api', 0, 0, 1)]
     for n in range(1, b['nodes_with_quantifiers'] + 1):
         sh = 1 if n <= 4 else NSHARD
         units += [('q', n, k, sh) for k in range(sh)]
@@ -121,6 +121,7 @@ def check_term(t, r=None, as_predicate=True):
         return problems
     from hpl.types import DataType
 
+    variants = getattr(check_term, 'variants', False)
     # a bare reference parsed as an expression is not yet known to be boolean:
     # the property quantifies over boolean expressions, so narrow it (public API)
     ast = ast.cast(DataType.BOOL)
@@ -130,6 +131,16 @@ def check_term(t, r=None, as_predicate=True):
         st2, pred = impl.try_parse('pred', '{ ' + text + ' }')
         if st2 == 'ok':
             inputs.append(('pred', pred))
+    if variants:
+        # the same tree as an equal but not identical object graph: a deep copy, and a rebuild through the
+        # constructors with freshly made operator definitions
+        import copy
+
+        inputs.append(('expr', copy.deepcopy(ast)))
+        try:
+            inputs.append(('expr', rebuild_with_fresh_operators(ast)))
+        except Exception:  # noqa: BLE001
+            pass
     results = []
     for kind, obj in inputs:
         if r is not None:
@@ -176,9 +187,29 @@ def check_term(t, r=None, as_predicate=True):
         results.append(tuple(absyn.canon(p) for p in plain))
         if r is not None:
             r.outcomes[f'parts={min(len(plain), 6)}'] += 1
-    if len(results) == 2 and results[0] != results[1]:
+    if len(results) >= 2 and any(x != results[0] for x in results[1:]):
         problems.append(('predicate and condition split differently', f'split_and on {{ {text} }} vs {text}'))
     return problems
+
+
+def rebuild_with_fresh_operators(e):
+    """Structurally equal copy built through the constructors, with operator definitions made afresh
+    (equal to the built-in ones, but not the same objects)."""
+    import hpl.ast as A
+    from hpl.ast.expressions import BinaryOperatorDefinition as B, UnaryOperatorDefinition as U
+
+    fresh_bin = {'and': B.conjunction, 'or': B.disjunction, 'implies': B.implication, 'iff': B.equivalence, '=': B.equality, '!=': B.inequality,
+                 '<': B.less_than, '<=': B.less_than_eq, '>': B.greater_than, '>=': B.greater_than_eq, 'in': B.inclusion,
+                 '+': B.addition, '-': B.subtraction, '*': B.multiplication, '/': B.division, '**': B.power}
+    n = type(e).__name__
+    if n == 'HplBinaryOperator':
+        return A.HplBinaryOperator(fresh_bin[e.operator.token](), rebuild_with_fresh_operators(e.operand1), rebuild_with_fresh_operators(e.operand2))
+    if n == 'HplUnaryOperator':
+        op = U.negation() if e.operator.token == 'not' else U.minus()
+        return A.HplUnaryOperator(op, rebuild_with_fresh_operators(e.operand))
+    if n == 'HplQuantifier':
+        return A.HplQuantifier(e.quantifier, e.variable, rebuild_with_fresh_operators(e.domain), rebuild_with_fresh_operators(e.condition))
+    return e
 
 
 def has_false_literal_after_presplit(t):
@@ -253,16 +284,64 @@ def _bool_children(t):
     return []
 
 
+def api_cases():
+    """Conjunctions built through the constructors that the parser cannot produce: conjuncts that are
+    different but print alike (a string literal made with HplLiteral.string has no quotes in its token)."""
+    import hpl.ast as A
+
+    this = A.HplThisMessage()
+    state, idle = A.HplFieldAccess(this, 'state'), A.HplFieldAccess(this, 'idle')
+    lit = A.HplLiteral.string('idle')
+    a = A.HplBinaryOperator('=', state, idle)
+    b = A.HplBinaryOperator('=', A.HplFieldAccess(this, 'state'), lit)
+    yield 'state = <field idle> and state = <string literal printed as idle>', A.And(a, b), {'state': ('"idle"', 'idle', '"busy"'), 'idle': ('"idle"', 'idle', '"busy"')}
+    yield 'not (state != <field idle> or state != <literal idle>)', A.Not(A.Or(A.HplBinaryOperator('!=', state, idle), A.HplBinaryOperator('!=', A.HplFieldAccess(this, 'state'), lit))), {'state': ('"idle"', 'idle', '"busy"'), 'idle': ('"idle"', 'idle', '"busy"')}
+    n1, n1f = A.HplLiteral('1', 1), A.HplLiteral('1', 1.0)
+    x = A.HplFieldAccess(this, 'x')
+    yield 'x > <int 1> and x > <float written 1>', A.And(A.HplBinaryOperator('>', x, n1), A.HplBinaryOperator('>=', A.HplFieldAccess(this, 'x'), n1f)), {'x': (0, 1, 2)}
+
+
+def run_api(r):
+    from itertools import product
+
+    from hpl.rewrite import split_and
+
+    for label, obj, grid in api_cases():
+        r.count('evaluations')
+        r.count('states')
+        r.count('transitions')
+        t_in = absyn.lift(obj)
+        try:
+            parts = [absyn.lift(p) for p in split_and(obj)]
+        except Exception as e:  # noqa: BLE001
+            r.violation('raised ' + type(e).__name__ + ' [API-built conjunction]', {'api': label}, f'split_and({label}) raised {type(e).__name__}: {e}', size=1)
+            continue
+        names = sorted(grid)
+        for combo in product(*[grid[n_] for n_ in names]):
+            env = {'this': dict(zip(names, combo))}
+            vi = E.value(t_in, env)
+            vo = E.value(conj(parts), env)
+            if vi[0] == 'ok' and (vo[0] != 'ok' or vo[1] is not vi[1]):
+                r.violation('not equivalent [API-built conjunction of look-alike conjuncts]', {'api': label}, f'split_and({label}) = {parts}: {env} gives {vi} vs {vo}', size=1)
+                break
+    r.count('validated', r.counters['evaluations'])
+
+
 def run(unit):
     kind, n, k, shards = unit
     r = Result()
+    if kind == 'api':
+        run_api(r)
+        return r
     g = boolfrag.grammar(False, quantifiers=(kind == 'q'))
     for i, t in enumerate(g.stream('B', n)):
         if i % shards != k:
             continue
         r.count('evaluations')
         r.count('states')
+        check_term.variants = n <= 4
         probs = [(t, pk, d) for pk, d in check_term(t, r)]
+        check_term.variants = False
         r.count('validated')
         if n <= WRAP_NODES:
             # shape family: chains of 2..4 negations directly above every small term
@@ -283,13 +362,18 @@ def run(unit):
 def replay(w):
     from hplmc.checks.c08 import _detuple
 
+    if 'api' in w:
+        r = Result()
+        run_api(r)
+        return [{'sig': v['sig'], 'detail': v['detail']} for v in r.violations]
+    check_term.variants = True
     return [{'sig': k, 'detail': d} for k, d in check_term(_detuple(w['term']), None)]
 
 
 def describe(tier):
     b = bounds(tier)
     return {
-        'rule': f"every boolean term over atoms p q r (x > 0) (y = 1) True False with not/and/or/implies/iff and forall/exists @i over xs, {{0, 1}}, [0 to 1] (bodies use (@i > 0), nested (@i < @j)) with <= {b['nodes_with_quantifiers']} nodes, and the quantifier-free part up to {b['nodes_propositional']} nodes; x every valuation (complete truth tables; numbers -1 0 1; arrays [] [0] [0,1]). Every term with <= 5 nodes is also checked under chains of 2, 3 and 4 negations. Each term is split both as an expression and as a predicate. A state = one term; a transition = one real split_and call.",
+        'rule': f"every boolean term over atoms p q r (x > 0) (y = 1) True False with not/and/or/implies/iff and forall/exists @i over xs, {{0, 1}}, [0 to 1] (bodies use (@i > 0), nested (@i < @j)) with <= {b['nodes_with_quantifiers']} nodes, and the quantifier-free part up to {b['nodes_propositional']} nodes; x every valuation (complete truth tables; numbers -1 0 1; arrays [] [0] [0,1]). Every term with <= 5 nodes is also checked under chains of 2, 3 and 4 negations. Each term is split both as an expression and as a predicate; terms with <= 4 nodes also as a deep copy and as a rebuild through the constructors with freshly made (equal, not identical) operator definitions; plus three API-built conjunctions of conjuncts that differ but print alike. A state = one term; a transition = one real split_and call.",
         'bounds': b,
         'exhaustive': True,
         'assumptions': ['reference evaluator; strict connectives; ValueError accepted only if the input is false on the whole grid and contains a literal False'],
